@@ -15,8 +15,9 @@
 //   coro     : one consumer coroutine (cocls::async<void>) performs all accesses: sync ones, co_await
 //              gen.next(), co_await of the future, and a real range-for for begin/inc runs
 //   thr_late / thr_early : as native but the consumer runs on its own thread under the controlled
-//              scheduler (vsched); a sync access may really block in _block.wait() and the awaited
-//              operation is completed by another thread.  late: the blocked consumer continues after
+//              scheduler (vsched); a sync access may really block in _block.wait(), every other gen()
+//              future is waited for with a blocking sync(), and the awaited operation is completed by
+//              another thread.  late: the blocked consumer continues after
 //              the completing thread has returned; early: the consumer is released as soon as
 //              _block was stored (before notify_all / before the completing thread has unwound)
 // header "witharg" selects generator<int,int>.
@@ -309,6 +310,9 @@ struct World {
         try {
             futs[i].reset(new cocls::future<int>(call_(i)));
             fut_addr[i] = futs[i].get();
+            // own thread: every other future is waited for like `*gen()` does (blocks in the future's
+            // sync_awaiter until the body, continued by the completing thread, has yielded or ended)
+            if (ct >= 0 && (i & 1)) futs[i]->sync();
         } catch (const cocls::no_more_values_exception &) { o.r = "nomore"; futs.erase(i); }
         catch (...) { o.r = "other_exception"; futs.erase(i); }
     }
